@@ -152,4 +152,29 @@ example :
     (toM r.1).position = 0 ∧ (toM r.1).buf.take 3 = [65, 65, 0] ∧ r.2 = false ∧ r.1.ub = false := by
   decide +kernel
 
+/-- a sequence of calls (`cstep`: the generated SCPI_Input, the caller appending the return value to the ghost log as the hand
+model does): chunk by chunk the generated function computes the hand model's fold, and `Inv` is kept - in every call no CHECK
+fails and fuel is left -/
+theorem c_inputs_refine (cc : CC) (hi : Inv cc) (chunks : List Bytes) (hl : ∀ d ∈ chunks, d.length ≤ 2147483647) :
+    toM (chunks.foldl cstep cc) = chunks.foldl Ctx.input (toM cc) ∧ Inv (chunks.foldl cstep cc) :=
+  csteps_refine chunks cc hi hl
+
+/-- Props/C01.lean `inputs_wf` for the generated function: along every history of calls the context stays well formed
+(position < length) and nothing undefined happens -/
+theorem c_inputs_wf (c : Ctx) (t ht : Int) (h : WF c) (hb : c.bufLen ≤ 2147483647) (chunks : List Bytes)
+    (hl : ∀ d ∈ chunks, d.length ≤ 2147483647) :
+    WF (toM (chunks.foldl cstep (toC c t ht))) ∧ (chunks.foldl cstep (toC c t ht)).ub = false ∧
+    (chunks.foldl cstep (toC c t ht)).outOfFuel = false :=
+  let h := (csteps_refine chunks (toC c t ht) (inv_toC c t ht h hb) hl).2
+  ⟨h.wf, h.ub, h.oof⟩
+
+-- three calls in a row (a chunk ending inside a message, its completion, a flush): the fold of the generated function against
+-- the hand model's
+example :
+    let chunks : List Bytes := [[65, 10, 65], [10, 65, 65], []]
+    let cc := chunks.foldl cstep (toC ex0 0 0)
+    obsM (toM cc) = obsM (chunks.foldl Ctx.input ex0) ∧ (toM cc).position = 0 ∧ cc.ub = false ∧ cc.outOfFuel = false ∧
+    (toM cc).events.length = 11 := by
+  decide +kernel
+
 end ScpiVerif.Props.C01InputGen
